@@ -138,6 +138,26 @@ def cases(tier, seed):
         e = [['p0/lin/x', 'p1/t1/u', 'E2', {'weight': 1.5, 'E2/e2/ei': 'source', 'E2/e2/ep': f'{named1}/lin/x'}],
              ['p1/lin/x', 'p2/t1/u', 'E2', {'weight': -0.5, 'E2/e2/ei': 'source', 'E2/e2/ep': f'{named2}/lin/x'}]]
         add(net(n_lt=3, edges=e, etpl=True), 'edge_tpl_named_input2', 0.1)
+    # nodes that are merged although their operators carry different NAMES, each with two structurally identical
+    # operators (excitatory / inhibitory synapse) that differ in their values only
+    syn = lambda: {'eqs': ["d/dt * c = -c/tau + g*s"], 'vars': {'c': 'output(0.0)', 'tau': 0.5, 'g': 1.0, 's': 'input(0.0)'}}
+    rate = lambda: {'eqs': ["d/dt * r = (-r + tanh(c))/T"], 'vars': {'r': 'output(0.1)', 'T': 0.4, 'c': 'input(0.0)'}}
+    nops = {'syn_e': syn(), 'syn_i': syn(), 'exc': syn(), 'inh': syn(), 'ex3': syn(), 'in3': syn(), 'rate': rate(), 'rt': rate(),
+            'r3': rate(), 'drv': {'eqs': ["d/dt * z = -z*q + p"], 'vars': {'z': 'output(1.0)', 'q': 3.0, 'p': 'input(0.0)'}}}
+    ntpl = {'A': [['syn_e', {'tau': 0.5, 'g': 2.0, 'c': 0.2}], ['syn_i', {'tau': 0.8, 'g': -3.0, 'c': -0.1}], ['rate', {'T': 0.4, 'r': 0.1}]],
+            'B': [['exc', {'tau': 0.6, 'g': 1.5, 'c': 0.3}], ['inh', {'tau': 0.9, 'g': -1.0, 'c': 0.15}], ['rt', {'T': 0.7, 'r': 0.3}]],
+            'C3': [['ex3', {'tau': 0.7, 'g': 0.5, 'c': -0.2}], ['in3', {'tau': 1.1, 'g': -2.0, 'c': 0.05}], ['r3', {'T': 0.55, 'r': -0.2}]],
+            'D': [['drv', {}]]}
+    e_all = [['a/rate/r', 'b/exc/s', None, {'weight': 1.0}], ['b/rt/r', 'a/syn_i/s', None, {'weight': 1.2}],
+             ['b/rt/r', 'a/syn_e/s', None, {'weight': 0.4}], ['d/drv/z', 'b/inh/s', None, {'weight': 0.8}],
+             ['d/drv/z', 'a/syn_e/s', None, {'weight': 0.6}], ['a/rate/r', 'd/drv/p', None, {'weight': 0.5}]]
+    for ne in (0, 2, 4, 6):
+        add({'ops': nops, 'node_tpls': {k_: ntpl[k_] for k_ in ('A', 'B', 'D')}, 'edge_tpls': {}, 'share': True,
+             'circuit': {'name': 'net', 'nodes': {'a': 'A', 'b': 'B', 'd': 'D'}, 'edges': e_all[:ne]}}, 'renamed_operators', 0.1)
+    add({'ops': nops, 'node_tpls': ntpl, 'edge_tpls': {}, 'share': True,
+         'circuit': {'name': 'net', 'nodes': {'a': 'A', 'b': 'B', 'cc': 'C3', 'd': 'D'},
+                     'edges': e_all[:3] + [['cc/r3/r', 'a/syn_i/s', None, {'weight': -0.7}],
+                                           ['a/rate/r', 'cc/ex3/s', None, {'weight': 0.9}]]}}, 'renamed_operators3', 0.1)
     # groups of >= 10 edges: the sparseness rule switches to the indexed path by itself (default threshold 0.1)
     for nt in (10, 11, 12):
         G = [f'g{i}' for i in range(nt)]
